@@ -103,7 +103,7 @@ def gen_episode(rng, n, strategy=None, stream_share=0.08):
     ids = rng.choice(["11", "11", "10", "01", "00"])
     base = rng.choice(["-", "-", "-", "/base", "/api/v1", "/base/"])
     # features that must not change what travels (thresholds no episode reaches)
-    feats = "".join(f for f in "crpl" if rng.random() < 0.45) or "-"
+    feats = "".join(f for f in "crpal" if rng.random() < 0.45) or "-"
     ep = ["px new %s %s %s %s" % (strategy or rng.choice(STRATS), ids, base, feats)]
     for _ in range(n):
         method = rng.choice(METHODS)
